@@ -95,7 +95,7 @@ Definition thm_tags (p : cprog) (args : sexp) : string :=
             | None => true
             end in
   (if cs && guard then " thm-static" else if cs && cf then " thm-run" else " thm-none")
-  ++ (if cs then "" else " nocs") ++ (if cf then "" else " clash").
+  ++ (if cs then "" else " nocs") ++ (if cf then "" else " clash") ++ (if tc_prog p then " typed" else " untyped").
 
 Definition s_res {X} (f : X -> sexp) (r : res X) : sexp :=
   match r with Ok x => f x | Err m => L [A "PANIC"; Q m] end.
